@@ -85,10 +85,15 @@ func w1GenProp(r *rand.Rand, c *simrt.Case, nclients, maxOps int, prop, tier str
 			cfg["precreate"] = int64(r.IntN(2))
 		}
 		if prop == "C04" {
-			cfg["index_interval"] = pick[int64](r, 5, 20, 100)
+			// dense (one entry per batch) as well as sparse indexes; mostly buffered appends so that
+			// segments hold many batches
+			cfg["index_interval"] = pick[int64](r, 1, 1, 2, 5, 20, 100)
 			cfg["buf_max_bytes"] = pick[int64](r, 600, 2000, 4<<20)
 		}
 		cfg["flush_on_ack"] = pick[int64](r, 1, 1, 1, 0)
+		if prop == "C04" {
+			cfg["flush_on_ack"] = pick[int64](r, 1, 0, 0)
+		}
 		producers := 1 + r.IntN(3)
 		for cl := 0; cl < producers; cl++ {
 			n := 2 + r.IntN(maxOps+2)
